@@ -21,7 +21,7 @@ RULE = (
     "dict/named tuple/dataclass, sets and frozensets of ints (incl. colliding hashes such as 0/8/2**61-1), "
     "strs, bytes, floats, (int,str) tuples and unorderable int/str/bytes/None mixes, frozenset/tuple dict keys) plus a permutation index. Each spec is "
     "built from its JSON form and hashed with get_type_registry().get_hash in five worker interpreters "
-    "started with PYTHONHASHSEED=0,1,2,3,12345 (recycled every 500 cases, so each batch meets fresh "
+    "started with PYTHONHASHSEED=0,1,2,3,12345 (recycled every 500 cases, 1000 in the thorough tier, so each batch meets fresh "
     "interpreters) and in the harness process, each time with the listed and with a permuted set "
     "insertion order: all 12 hashes of one spec must be equal. A spec containing a set below the top "
     "level or any frozenset is additionally checked in a canonicalised form (those nodes replaced by "
@@ -437,6 +437,8 @@ def golden_check(ctx: Ctx, only=None) -> None:
 
 
 def check(ctx: Ctx) -> None:
+    global RECYCLE
+    RECYCLE = ctx.pick(500, 1000)
     try:
         ctx.given(cases, lambda c: run_case(ctx, c), ctx.n(1500, 48000))
         if ctx.shard in (None, 0):
